@@ -117,3 +117,55 @@ func allFunctions(prog *ssa.Program) map[*ssa.Function]bool {
 	}
 	return seen
 }
+
+// nonNilGlobalContent: s is the content of a package-level variable that is assigned exactly once, in
+// package initialisation, from an error constructor (errors.New, fmt.Errorf, status.Error/Errorf): the
+// usual `var ErrX = errors.New(...)` sentinel. Such a value is never nil.
+func (c *Ctx) nonNilGlobalContent(s *Sym) bool {
+	s = s.strip()
+	if s == nil || s.Kind != KInit || s.Args[0].Kind != KGlobal {
+		return false
+	}
+	g := s.Args[0].Ref.(*ssa.Global)
+	if c.nonNilGlobals == nil {
+		c.nonNilGlobals = map[*ssa.Global]bool{}
+		c.nonNilDone = map[*ssa.Global]bool{}
+	}
+	if c.nonNilDone[g] {
+		return c.nonNilGlobals[g]
+	}
+	c.nonNilDone[g] = true
+	if g.Pkg == nil || c.globalMutable(g) {
+		return false
+	}
+	initFn := g.Pkg.Func("init")
+	if initFn == nil {
+		return false
+	}
+	n, good := 0, true
+	for _, b := range initFn.Blocks {
+		for _, in := range b.Instrs {
+			st, ok := in.(*ssa.Store)
+			if !ok || st.Addr != ssa.Value(g) {
+				continue
+			}
+			n++
+			v := st.Val
+			if mi, ok := v.(*ssa.MakeInterface); ok {
+				v = mi.X
+			}
+			call, ok := v.(*ssa.Call)
+			if !ok || call.Call.StaticCallee() == nil {
+				good = false
+				continue
+			}
+			switch call.Call.StaticCallee().String() {
+			case "errors.New", "fmt.Errorf", "google.golang.org/grpc/status.Error", "google.golang.org/grpc/status.Errorf":
+			default:
+				good = false
+			}
+		}
+	}
+	c.nonNilGlobals[g] = n == 1 && good
+	return c.nonNilGlobals[g]
+}
